@@ -10,6 +10,7 @@ package main
 //	     record     print `CHUNKS <hex,hex,..>`: the Write calls SaveGlobals makes for the state to be saved
 //	     second     call AutoSave a second time after the first returned (the "only if changed" logic)
 //	     noauto     Options.AutoSave=false
+//	     maxlen=N   Options.MaxValueLen / State.MaxValueLen = N (values longer than N are not saved)
 //	     nofile=N   setrlimit(RLIMIT_NOFILE) to <lowest free fd + N> just before AutoSave (hook-free CreateTemp failure when N=0)
 //	     fsize=N    setrlimit(RLIMIT_FSIZE, N) just before AutoSave (hook-free write failure after N bytes of the temp file)
 //	child load <dir>                          fresh session: chdir dir; AutoLoad; print `DUMP <hex>` = SaveGlobals of the loaded state
@@ -86,6 +87,11 @@ func childMain(args []string) {
 		}
 		if _, ok := flags["noauto"]; ok {
 			opts.AutoSave = false
+		}
+		if v, ok := flags["maxlen"]; ok { // what repl.EvalStringWithOption / Interactive do with Options.MaxValueLen
+			n, _ := strconv.Atoi(v)
+			opts.MaxValueLen = n
+			s.MaxValueLen = n
 		}
 		lerr := repl.AutoLoad(s, opts)
 		fmt.Printf("LOADERR=%d\n", errBit(lerr))
